@@ -297,7 +297,7 @@ func freeRun(r *hx.Run, rnd *hx.Rand, idx int, maxUsers int) {
 
 	// ---- after all Close calls. A flight outlives waiters that left through ctx.Done:
 	// the quiescent state is reached when the last flight has returned.
-	for deadline := time.Now().Add(10 * time.Second); flights.Load() != 0; {
+	for deadline := time.Now().Add(10 * time.Second); flights.Load() != 0 || flightGoroutines() != 0; {
 		if time.Now().After(deadline) {
 			r.Fail("", label+" a-flight-is-still-running-10s-after-every-user-returned")
 			break
@@ -334,7 +334,7 @@ func freeRun(r *hx.Run, rnd *hx.Rand, idx int, maxUsers int) {
 }
 
 func freeRuns(r *hx.Run, cfg hx.Config, rnd *hx.Rand) {
-	n := cfg.N(60, 1500)
+	n := cfg.N(80, 2500)
 	base := runtime.NumGoroutine()
 	for i := 0; i < n && !r.Stop(); i++ {
 		procs := 1 + rnd.Intn(16)
